@@ -60,13 +60,14 @@ Provided(m, sh) ==
             {[none EXCEPT !.geki = q[1], !.n300 = q[2], !.katu = q[3], !.n100 = q[4], !.n50 = q[5], !.miss = q[6]] :
                 q \in V \X V \X V \X V \X V \X (IF Rich THEN V ELSE {NONE, 1})}
 
-Cases ==
-  UNION {
+(* all cases of one (mode, shape, passed): TLC computes initial states on one thread, so the   *)
+(* enumeration is split: root -> (mode, shape, passed) -> case, the second step runs in parallel *)
+CasesOf(m, sh, ps) ==
     {[mode |-> m, sh |-> sh, passed |-> ps, p |-> p, prio |-> pr, origin |-> og, acc |-> ac] :
-        <<ps, p, pr, og, ac>> \in
-           (IF m = "catch" THEN {NONE} ELSE PassedVals(NOf(m, sh))) \X Provided(m, sh) \X {"B", "W"} \X Origins(m)
-             \X ({NONE} \cup AccGrid)}
-    : <<m, sh>> \in UNION {{<<m, sh>> : sh \in Shapes(m)} : m \in Modes}}
+        <<p, pr, og, ac>> \in Provided(m, sh) \X {"B", "W"} \X Origins(m) \X ({NONE} \cup AccGrid)}
+
+NoneP == [f \in Fields |-> NONE]
+Stub(m, sh, ps) == [mode |-> m, sh |-> sh, passed |-> ps, p |-> NoneP, prio |-> "B", origin |-> "S", acc |-> NONE]
 
 (* the transcription covers: no accuracy; catch also with accuracy unless the tiny search runs *)
 Modelled(cs) ==
@@ -75,10 +76,16 @@ Modelled(cs) ==
      /\ \/ (Has(cs.p.n50) /\ ~Has(cs.p.katu)) \/ (~Has(cs.p.n50) /\ Has(cs.p.katu))
         \/ (Has(cs.p.n50) /\ Has(cs.p.katu) /\ cs.p.n50 + cs.p.katu = cs.sh.c)
 
-Init == /\ c \in Cases
-        /\ phase = "new"
+Init == /\ \E m \in Modes : \E sh \in Shapes(m) :
+             \E ps \in (IF m = "catch" THEN {NONE} ELSE PassedVals(NOf(m, sh))) : c = Stub(m, sh, ps)
+        /\ phase = "shape"
         /\ res = ZeroRes
         /\ first = ZeroRes
+
+Choose == /\ phase = "shape"
+          /\ c' \in CasesOf(c.mode, c.sh, c.passed)
+          /\ phase' = "new"
+          /\ UNCHANGED <<res, first>>
 
 Generate ==
   /\ phase \in {"new", "gen1"}
@@ -89,7 +96,7 @@ Generate ==
        /\ c' = WriteBack(c, g.r)
        /\ phase' = IF ~g.ok THEN "underflow" ELSE IF phase = "new" THEN "gen1" ELSE "gen2"
 
-Next == Generate
+Next == Choose \/ Generate
 Spec == Init /\ [][Next]_vars
 
 -----------------------------------------------------------------------------
